@@ -433,7 +433,7 @@ def run_ops(run):
     records, scripts, script_idx = [], [], []
     for i, e in enumerate(exprs):
         cat = cases[i][0] if i < len(cases) else "control"
-        rec = dict(cat=cat, expr=to_req(e), verdict=None, detail="", seconds=0.0)
+        rec = dict(cat=cat, expr=to_req(e), verdict=None, detail="", seconds=0.0, tree=e)
         records.append(rec)
         a, b = impl[i], model[i]
         if b is None:
@@ -482,6 +482,10 @@ if __name__ == "__main__":
     run = common.Run("C05", tier, int(os.environ.get("VERIF_SEED", "1")))
     dis, det = run_ops(run)
     recs = det.pop("records", [])
+    for r in recs:
+        r.pop("tree", None)
+    for d in dis:
+        d.pop("tree", None)
     if "-v" in sys.argv:
         for r in recs:
             print(f"{r['verdict']:8} {r.get('method', '-'):10} {r['seconds']:6.2f}s {r['cat']:8} {r['expr'][:100]}")
